@@ -512,7 +512,7 @@ package sizes
 //@ property C02: (*Graph).RegisterBlob (*Graph).RegisterCommit (*Graph).finalizeTreeSize (*treeRecord).initialize
 //@ property C03: (*CommitSize).addParent (*Graph).GetCommitSize (*Graph).GetTreeSize (*Graph).RegisterCommit (*HistorySize).recordCommit (*HistorySize).recordTag newTagRecord (*tagRecord).addListener (*Graph).RequireTagSize (*Graph).finalizeTagSize (*tagRecord).maybeFinalize (*tagRecord).initialize (*tagRecord).initialize$1 (*Graph).RegisterTag
 //@ property C04: newTreeRecord (*treeRecord).addListener (*Graph).RequireTreeSize (*Graph).finalizeTreeSize (*treeRecord).maybeFinalize (*treeRecord).initialize (*treeRecord).initialize$1 (*Graph).RegisterTree (*Graph).GetBlobSize
-//@ property C09: ScanRepositoryUsingGraph$1$1 (*treeRecord).initialize (*treeRecord).initialize$1 (*tagRecord).initialize (*tagRecord).initialize$1 (*Graph).RequireTreeSize (*Graph).RequireTagSize
+//@ property C09: (*Graph).finalizeTagSize (*Graph).RegisterTag (*Graph).finalizeTreeSize (*Graph).RegisterTree ScanRepositoryUsingGraph$1$1 (*treeRecord).initialize (*treeRecord).initialize$1 (*tagRecord).initialize (*tagRecord).initialize$1 (*Graph).RequireTreeSize (*Graph).RequireTagSize
 //@ property C07: (*HistorySize).recordReference (*HistorySize).recordReferenceGroup
 
 // ---------------------------------------------------------------- graph.go: orchestration (C01, C10, C18)
@@ -599,10 +599,21 @@ package sizes
 //@   ensures nameStyle == 1 ==> dyntype(result, "sizes.NullPathResolver") && unbox(result, "sizes.NullPathResolver").useHash
 //@   ensures nameStyle == 2 ==> dyntype(result, "*sizes.InOrderPathResolver") && wfResolver(unbox(result, "*sizes.InOrderPathResolver"))
 
+// A new graph knows nothing: every memo is empty, every total is zero, and
+// the path resolver is the one the requested name style selects (C08: with
+// --names=none nothing can be cited because nothing is ever resolved).
 //@ func NewGraph
 //@   requires nameStyle >= 0 && nameStyle <= 2
 //@   pure
+//@   call 0 NewPathResolver as npr
+//@   call 0 NewPathResolver assert arg_0 == nameStyle
 //@   ensures result != nil && fresh(result)
+//@   ensures result.pathResolver == npr
+//@   ensures len(result.blobSizes) == 0 && len(result.treeSizes) == 0 && len(result.treeRecords) == 0 && len(result.commitSizes) == 0 && len(result.tagSizes) == 0 && len(result.tagRecords) == 0 && len(result.historySize.ReferenceGroups) == 0
+//@   ensures result.historySize.UniqueCommitCount == 0 && result.historySize.UniqueCommitSize == 0 && result.historySize.MaxCommitSize == 0 && result.historySize.MaxHistoryDepth == 0 && result.historySize.MaxParentCount == 0
+//@   ensures result.historySize.UniqueTreeCount == 0 && result.historySize.UniqueTreeSize == 0 && result.historySize.UniqueTreeEntries == 0 && result.historySize.MaxTreeEntries == 0
+//@   ensures result.historySize.UniqueBlobCount == 0 && result.historySize.UniqueBlobSize == 0 && result.historySize.MaxBlobSize == 0 && result.historySize.UniqueTagCount == 0 && result.historySize.MaxTagDepth == 0 && result.historySize.ReferenceCount == 0
+//@   ensures result.historySize.MaxPathDepth == 0 && result.historySize.MaxPathLength == 0 && result.historySize.MaxExpandedTreeCount == 0 && result.historySize.MaxExpandedBlobCount == 0 && result.historySize.MaxExpandedBlobSize == 0 && result.historySize.MaxExpandedLinkCount == 0 && result.historySize.MaxExpandedSubmoduleCount == 0
 
 // ScanRepositoryUsingGraph (C01 dispatch, C10 error propagation, C18 one
 // Inc() per processed object). Ghost counters count the calls; loops are
@@ -685,6 +696,11 @@ package sizes
 // ... and every root is visited by the final pass (reference tallies, names),
 // whatever the name style
 //@   ensures result1 == nil ==> nRootSeen == len(roots)
+// the graph is made for the requested name style, and what is returned on
+// success is that graph's history size
+//@   call 0 NewGraph assert arg_0 == nameStyle
+//@   call 0 Graph).HistorySize as hs
+//@   ensures result1 == nil ==> hs_reached && result0 == hs
 
 //@ property C01: ScanRepositoryUsingGraph ScanRepositoryUsingGraph$1$1 ScanRepositoryUsingGraph$2$1 NewGraph (*Graph).HistorySize
 //@ property C10: ScanRepositoryUsingGraph$1 ScanRepositoryUsingGraph$2 ScanRepositoryUsingGraph ScanRepositoryUsingGraph$1$1
@@ -1034,6 +1050,9 @@ package sizes
 //@ property C19: (*Footnotes).String (*item).CollectItems (*section).CollectItems
 //@ property C11: newItem (*item).CollectItems (*section).CollectItems (*item).Indented newSection
 //@ property C01: NewExplicitRoot
-//@ property C08: (*Graph).RegisterName structural/items-well-formed (*treeRecord).initialize (*treeRecord).initialize$1
+// a footnote shows the description byte for byte (it is not re-interpreted
+// as a format)
+//@ property C08: (*Footnotes).String
+//@ property C08: NewGraph (*Graph).RegisterName structural/items-well-formed (*treeRecord).initialize (*treeRecord).initialize$1
 // bytes get binary prefixes and counts metric ones at every item of the report
 //@ property C12: structural/items-well-formed
